@@ -496,7 +496,12 @@ func (b *builder) props(s *Schema) (map[string]*schema.PropertySchema, error) {
 			}
 			def = &txt
 		}
-		ps := schema.NewPropertySchema(t, nil, p.Required, p.RequiredIf, p.RequiredIfNot, p.Conflicts, def, nil)
+		var display schema.Display
+		if p.Display != "" {
+			name := p.Display
+			display = schema.NewDisplayValue(&name, nil, nil)
+		}
+		ps := schema.NewPropertySchema(t, display, p.Required, p.RequiredIf, p.RequiredIfNot, p.Conflicts, def, nil)
 		if p.Disabled {
 			ps.Disable("disabled by the specification")
 		}
